@@ -143,19 +143,29 @@ def run_case(case):
             except BaseException as e:   # noqa
                 done.put(repr(e))
 
-    ths = [threading.Thread(target=loop, args=(k,)) for k in range(1, nthreads)]
-    for th in ths:
-        th.start()
+    # threads start at their first operation and end at their `end` operation (a later thread then usually gets the
+    # ended thread's recycled identifier: per-thread state must not survive its thread)
+    ths = {}
     marks = []
     err = None
     for (t, *op) in case['history']:
         start = len(log)
+        if op[0] == 'end':
+            if t in ths:
+                qs[t].put(None)
+                done.get()
+                ths.pop(t).join()
+            marks.append([])
+            continue
         if t == 0:
             try:
                 do(op)
             except BaseException as e:   # noqa
                 err = repr(e)
         else:
+            if t not in ths:
+                ths[t] = threading.Thread(target=loop, args=(t,))
+                ths[t].start()
             qs[t].put(op)
             r = done.get()
             if r:
@@ -163,11 +173,10 @@ def run_case(case):
         marks.append(log[start:])
         if err:
             break
-    for k in range(1, nthreads):
+    for k in list(ths):
         qs[k].put(None)
         done.get()
-    for th in ths:
-        th.join()
+        ths.pop(k).join()
     # clean up whatever the history left enabled (main thread only; others have ended)
     while prof.enable_count > 0:
         prof.disable_by_count()
